@@ -978,7 +978,7 @@ func (w *walker) emit(field, ownerType string, origins oset, write bool, pos tok
 		if o != ownerType {
 			name = field + "@" + o
 		}
-		var ls [][2]string
+		ls := [][2]string{}
 		for n, v := range w.locks {
 			m := "R"
 			if v.w {
